@@ -16,7 +16,8 @@ EXTENDS AmmoFormats, Json, IOUtils, SequencesExt
 
 CONSTANTS MaxItems,     \* files of 1..MaxItems items
           MaxSelItems,  \* C14 files of 1..MaxSelItems items
-          SelHardLayout \* C14 matrix also under the layout furthest from the plain one (thorough)
+          SelHardLayout, \* C14 matrix also under the layout furthest from the plain one (thorough)
+          Quick          \* quick tier: crlf and ws vary together, limits {0,2,5}, one chosencases setting matching nothing
 
 VARIABLES fmt, items, st
 vars == <<fmt, items, st>>
@@ -70,8 +71,8 @@ SelKinds(f) == {EntryItem(e) : e \in SelPool(f)} \cup {BlankItem}
 SelFiles(f, n) == FilesOver(SelKinds(f), n)
 
 \* chosencases settings: none, one tag, two tags (one with a space), the empty tag, a tag matching nothing
-ChosenSets == { <<>>, <<"t1">>, <<"t1", "t 2">>, <<"">>, <<"zz">>, <<"t">> }
-Limits  == {0, 1, 2, 5}
+ChosenSets == { <<>>, <<"t1">>, <<"t1", "t 2">>, <<"">>, <<"t">> } \cup (IF Quick THEN {} ELSE { <<"zz">> })
+Limits  == IF Quick THEN {0, 2, 5} ELSE {0, 1, 2, 5}
 Passes  == {0, 1, 2}
 
 ----------------------------------------------------------------------------
@@ -147,17 +148,25 @@ LayoutTheorem == LayoutInvisible(fmt = "sized", items, st)
 (* case export for the conformance driver *)
 
 JsonStyles == {"line", "pretty", "array", "arraypretty"}
-LayFor(f) == IF f = "json" THEN {[crlf |-> c, ws |-> w, sep |-> TRUE, final |-> fn, style |-> s] :
-                                    c \in BOOLEAN, w \in BOOLEAN, fn \in BOOLEAN, s \in JsonStyles}
-             ELSE IF f = "uri" THEN {[crlf |-> c, ws |-> w, sep |-> TRUE, final |-> fn, style |-> "text"] :
-                                    c \in BOOLEAN, w \in BOOLEAN, fn \in BOOLEAN}
-             ELSE {[crlf |-> c, ws |-> w, sep |-> s, final |-> fn, style |-> "text"] :
-                                    c \in BOOLEAN, w \in BOOLEAN, s \in BOOLEAN, fn \in BOOLEAN}
+CW == IF Quick THEN {<<FALSE, FALSE>>, <<TRUE, TRUE>>} ELSE BOOLEAN \X BOOLEAN     \* (crlf, ws)
+LayFor(f) == IF f = "json" THEN {[crlf |-> cw[1], ws |-> cw[2], sep |-> TRUE, final |-> fn, style |-> s] :
+                                    cw \in CW, fn \in BOOLEAN, s \in JsonStyles}
+             ELSE IF f = "uri" THEN {[crlf |-> cw[1], ws |-> cw[2], sep |-> TRUE, final |-> fn, style |-> "text"] :
+                                    cw \in CW, fn \in BOOLEAN}
+             ELSE {[crlf |-> cw[1], ws |-> cw[2], sep |-> s, final |-> fn, style |-> "text"] :
+                                    cw \in CW, s \in BOOLEAN, fn \in BOOLEAN}
 
 Conf(lim, pas, pre, chs, take) == [limit |-> lim, passes |-> pas, preload |-> pre, chosen |-> chs, take |-> take]
 
 C07Cases(f) == { [fmt |-> f, items |-> fl, lay |-> l,
                   conf |-> Conf(0, 0, FALSE, <<>>, 2 * NumEntries(fl) + 1)] : fl \in Files(f, MaxItems), l \in LayFor(f) }
+
+\* thorough: two-item files with a DIFFERENT layout per item (same final / style, which belong to the file)
+C07Mixed(f) == IF Quick THEN {} ELSE
+    UNION { { [fmt |-> f, items |-> fl, lay |-> l1, lays |-> <<l1, l2>>,
+               conf |-> Conf(0, 0, FALSE, <<>>, 2 * NumEntries(fl) + 1)] :
+               fl \in {x \in Files(f, 2) : Len(x) = 2},
+               l2 \in {y \in LayFor(f) : y.final = l1.final /\ y.style = l1.style /\ y # l1} } : l1 \in LayFor(f) }
 
 PlainLay(f, s) == [crlf |-> FALSE, ws |-> FALSE, sep |-> TRUE, final |-> TRUE, style |-> s]
 \* the layout furthest from the plain one: CRLF, blanks and tabs around every line, no blank line after bodies,
@@ -174,7 +183,7 @@ C14Cases(f) == { [fmt |-> f, items |-> fl, lay |-> l,
 
 ExportSet(S, path) == ndJsonSerialize(path, SetToSeq(S))
 
-ExportC07 == \A f \in Formats : ExportSet(C07Cases(f), IOEnv.VERIF_OUT \o "." \o f)
+ExportC07 == \A f \in Formats : ExportSet(C07Cases(f) \cup C07Mixed(f), IOEnv.VERIF_OUT \o "." \o f)
 ExportC14 == \A f \in Formats : ExportSet(C14Cases(f), IOEnv.VERIF_OUT \o "." \o f)
 
 \* export configs: a single dummy state; the export happens while TLC evaluates the invariant on it
